@@ -27,6 +27,8 @@ use crate::codec::family::Family;
 use crate::error::Error;
 use crate::hll::HllType;
 use crate::hll::KEY_MASK_26;
+use crate::hll::RESIZE_DENOMINATOR;
+use crate::hll::RESIZE_NUMERATOR;
 use crate::hll::container::COUPON_EMPTY;
 use crate::hll::container::Container;
 use crate::hll::serialization::COMPACT_FLAG_MASK;
@@ -104,6 +106,15 @@ impl HashSet {
             .map_err(insufficient_data("coupon_count"))?;
         let coupon_count = coupon_count as usize;
 
+        // A set is grown before its load exceeds 3/4; a fuller table cannot come from a valid
+        // sketch and would leave the probe sequence of the next insert without a free slot.
+        let capacity = 1usize << lg_arr;
+        if RESIZE_DENOMINATOR as usize * coupon_count > RESIZE_NUMERATOR as usize * capacity {
+            return Err(Error::deserial(format!(
+                "set image declares {coupon_count} coupons for a table of {capacity} slots"
+            )));
+        }
+
         if compact {
             // Compact mode: only couponCount coupons are stored
             // Create a new hash set and insert coupons one by one
@@ -114,7 +125,13 @@ impl HashSet {
                         "expected {coupon_count} coupons, failed at index {i}"
                     ))
                 })?;
+                if coupon == COUPON_EMPTY {
+                    return Err(Error::deserial("set image contains an empty coupon"));
+                }
                 hash_set.update(coupon);
+            }
+            if hash_set.container.len() != coupon_count {
+                return Err(Error::deserial("set image contains duplicate coupons"));
             }
             Ok(hash_set)
         } else {
@@ -129,6 +146,13 @@ impl HashSet {
                         "expected {array_size} coupons, failed at index {i}"
                     ))
                 })?;
+            }
+
+            let stored = coupons.iter().filter(|&&c| c != COUPON_EMPTY).count();
+            if stored != coupon_count {
+                return Err(Error::deserial(format!(
+                    "set image declares {coupon_count} coupons but its table holds {stored}"
+                )));
             }
 
             Ok(Self {
